@@ -39,7 +39,7 @@ func (g *Gen) emit(line string) string {
 	ans := g.emit1(line)
 	// after every mutating op the full observation is compared with the model
 	switch strings.Fields(line)[0] {
-	case "dotx", "play", "playminer", "walk", "walktrace", "reopen", "race2", "balrace", "selrace":
+	case "dotx", "play", "playminer", "walk", "walktrace", "reopen", "race2", "balrace", "selrace", "raced":
 		g.emit1("obs")
 	case "mtruncate":
 		g.emit1("obs")
@@ -408,6 +408,8 @@ func (g *Gen) scenario(p *Profile) {
 			if a != b {
 				g.emit(fmt.Sprintf("race2 %d %d", a, b))
 			}
+		case "walkrace":
+			g.walkRace() // walkrace.go
 		case "selrace":
 			// two selectors with locking on an address that holds something
 			s, h := e.specNow(), g.ledgerHeight()
